@@ -205,6 +205,12 @@ fn axes() -> Vec<(String, Box<dyn Fn(&mut Form, &mut bool) + Send + Sync>)> {
         }
     }
     add(&mut v, "file-part-content-type-first", Box::new(|f, _| f.file_type_first = true));
+    // file names as browsers send them: blanks, separators of the header grammar, non-ASCII, long; other file types
+    for (l, name) in [("blank", "my file (1).txt"), ("separators", "a;b=c, d.txt"), ("non-ascii", "é😀.bin"), ("percent-quote", "a%22b.txt"), ("path", "C:\\fakepath\\a.txt")] {
+        add(&mut v, &format!("file-name-{l}"), Box::new(move |f, _| f.file_name = name.to_owned()));
+    }
+    add(&mut v, "file-name-255", Box::new(|f, _| f.file_name = format!("{}.txt", "n".repeat(251))));
+    add(&mut v, "file-type-with-parameter", Box::new(|f, _| f.file_type = "text/plain; charset=utf-8".to_owned()));
     add(&mut v, "field-after-file", Box::new(|f, _| f.after.push(("submit".into(), "Upload".into()))));
     add(&mut v, "key-with-specials", Box::new(|f, _| f.set_field("key", "up/a b+c%d&e=f?g#h/é😀")));
     // values whose edges are white space (a value ends where the CRLF of the next delimiter begins, not earlier)
@@ -233,6 +239,7 @@ fn axes() -> Vec<(String, Box<dyn Fn(&mut Form, &mut bool) + Send + Sync>)> {
         ("crlf-crlf", b"\r\n\r\n\r\n".to_vec()),
         ("ends-with-cr", b"abc\r".to_vec()),
         ("4k", (0..4096u32).map(|i| (i % 256) as u8).collect()),
+        ("70k", (0..70_000u32).map(|i| (i % 251) as u8).collect()),
         ("all-bytes", (0..=255u8).collect()),
     ];
     for (l, bytes) in files {
@@ -586,7 +593,7 @@ pub fn run(ctx: &Ctx) -> (Acc, Report) {
     });
     let rep = Report {
         level: "exploration",
-        rule: format!("{n_variants} forms: a policy-signed base form with 0, 1 and 2 simultaneous deviations (thorough: 3 over the axes that are not single-byte file contents) over {n_axes} axes (field-name case, x-amz-meta fields, header-equivalent fields, duplicate/unknown/after-file fields, 13 spellings of part headers (a second header line after / before Content-Disposition, lower-case name; on the first, a middle, the last, all fields; the file part), keys, 3 boundaries, file contents incl. every single byte value, CR/LF runs and proper prefixes of the delimiter, 19 policies: expiry on both sides of the owned clock, eq/starts-with/bucket/content-length-range/meta conditions satisfied and violated, malformed documents) plus every single-character mutation, removal and emptying of policy, signature, credential, date and algorithm. Every form with at most one deviation is delivered in one frame, in 1-byte frames, in 3-byte frames and cut in two at every offset from 3 bytes before the end of the file to 4 bytes after its closing delimiter; the others in one frame. Oracle: reference form verifier + field-wise comparison of the PutObjectInput at the backend."),
+        rule: format!("{n_variants} forms: a policy-signed base form with 0, 1 and 2 simultaneous deviations (thorough: 3 over the axes that are not single-byte file contents) over {n_axes} axes (field-name case, x-amz-meta fields, header-equivalent fields, duplicate/unknown/after-file fields, file names with blanks / header-grammar separators / non-ASCII / 255 characters, 13 spellings of part headers (a second header line after / before Content-Disposition, lower-case name; on the first, a middle, the last, all fields; the file part), keys, 3 boundaries, file contents incl. every single byte value, CR/LF runs and proper prefixes of the delimiter, 19 policies: expiry on both sides of the owned clock, eq/starts-with/bucket/content-length-range/meta conditions satisfied and violated, malformed documents) plus every single-character mutation, removal and emptying of policy, signature, credential, date and algorithm. Every form with at most one deviation is delivered in one frame, in 1-byte frames, in 3-byte frames and cut in two at every offset from 3 bytes before the end of the file to 4 bytes after its closing delimiter; the others in one frame. Oracle: reference form verifier + field-wise comparison of the PutObjectInput at the backend."),
         exhaustive: true,
         extra: json!({"forms": n_variants, "axes": n_axes, "transport_fault_cases": n_faults, "transport_fault_rule": "3 signed, compliant forms (base; 300-byte file with CR/LF; a field after the file) x body ends / I/O error / two frames then I/O error after every byte offset: whatever reaches the backend as an object write is the complete file"}),
         assumptions: vec![
